@@ -3,3 +3,12 @@ import TephraProps.C08
 #print axioms Tephra.Props.C08_recover_no_sink_returns_error
 #print axioms Tephra.Props.C08_nosink_log_empty
 #print axioms Tephra.Props.C08_sink_monotone
+#print axioms Tephra.Props.C08_recoveryFree_sink_independent
+#print axioms Tephra.Props.C08_no_recover_state_without_sink
+#print axioms Tephra.Props.C08_lockstep
+#print axioms Tephra.Props.C08_a
+#print axioms Tephra.Props.C08_b
+#print axioms Tephra.Props.C08_c
+#print axioms Tephra.Props.C08_a_committed_false
+#print axioms Tephra.Props.C08_c_committed_false
+#print axioms Tephra.Props.committed'_imp_committed
